@@ -744,6 +744,13 @@ def join_insts(tier):
             insts.append(inst)
     return insts
 
+def replace_inst(n):
+    d = {"SLEN": n, "STRCAP": 16, "VCAP": 4, "VFS_MAXNODES": 2, "V_PATH_MAX": 32}
+    inst = Instance("tool-replace-%d" % n, "x_replace.c", d, unwind=n + 8, unwindset=[], timeout=600, mem_gb=12, leak_check=False,
+                    flags=["--max-field-sensitivity-array-size", str(n + 64)],
+                    functions="util/econftool.c: replace_str", bounds="--delimiters option string of %d characters ending in the escape \\t (concrete)" % n, expect_reach=["end"])
+    return inst
+
 def c14(tier):
     BS, PM = 8, 16
     sc = {"V_BUFSIZ": BS, "V_PATH_MAX": PM}
@@ -772,10 +779,12 @@ def c14(tier):
         insts.append(small("len-path-%d" % n, "l_path.c", {"PLEN": n, "STRCAP": 2 * PM + 8, "V_BUFSIZ": BS, "V_PATH_MAX": PM, "VFS_CONTENT": 6}, unwind=2 * PM + 9, E=2, G=2,
                            extra_uw=[(r"getfilecontents\.c", r"while \(getline", 3), (r"l_path\.c", r"i < PLEN", 2 * PM + 6)],
                            functions="econf_readFile, read_file (last scanned file name), econf_errLocation, econf_getPath", bounds="absolute file name of %d characters (scaled PATH_MAX = %d)" % (n, PM)))
+    for n in ([12, 1023, 1024, 1030] if tier == "quick" else [12, 1000, 1022, 1023, 1024, 1025, 1030, 2100]):
+        insts.append(replace_inst(n))
     return {"instances": insts, "assumptions": COMMON_ASSUME + ["SCALING: BUFSIZ := 8 and PATH_MAX := 16 (force-included); the library uses both only through the macros, so buffer-relative behaviour is preserved while the boundaries become reachable with short strings; the real 8192/4096 values and 64 Ki / 1 Mi fields are outside the bound",
             "field lengths are concrete per instance {BUFSIZ-1, BUFSIZ, BUFSIZ+1, 2*BUFSIZ} (more in thorough), field characters concrete letters (the subject is length, and lengths must be concrete for the symbolic execution)",
             "paths longer than PATH_MAX-1 are beyond the operating-system limit: for those only the absence of buffer overruns is claimed, not exact reporting",
-            "util/econftool.c replace_str (fixed 1024-byte buffer that cannot be scaled) is not covered"],
+            "util/econftool.c replace_str (escape translation of --delimiters; its buffer size was a literal 1024 that cannot be scaled) is driven unscaled with concrete option strings of 12..1030 (2100) characters"],
             "explanation": "every field kind at lengths around the (scaled) stdio buffer size through read, plain and extended getters, write and read-back, with CBMC's bounds checks"}
 
 def c19(tier):
